@@ -144,6 +144,41 @@ let same_shape a b = a.rel = b.rel && a.fdom = b.fdom
 
 let set_edge name fn t = Hashtbl.replace edges name (fn, t)
 
+(* ---- implementation observations (optional 2nd argument) ---- *)
+let impl_obs : (int, string) Hashtbl.t = Hashtbl.create 101
+
+let load_impl file =
+  let ic = open_in file in
+  (try
+     while true do
+       let l = input_line ic in
+       if Stdlib.String.length l > 1 && l.[0] = '@' then
+         match Stdlib.String.index_opt l ' ' with
+         | Some i ->
+           (try Hashtbl.replace impl_obs (int_of_string (Stdlib.String.sub l 1 (i - 1)))
+                  (Stdlib.String.sub l (i + 1) (Stdlib.String.length l - i - 1))
+            with _ -> ())
+         | None -> ()
+     done
+   with End_of_file -> ());
+  close_in ic
+
+(* "key=value" field of an observation *)
+let field obs key =
+  let toks = split obs in
+  let k = key ^ "=" in
+  let kl = Stdlib.String.length k in
+  let rec go = function
+    | [] -> None
+    | t :: r -> if Stdlib.String.length t >= kl && Stdlib.String.sub t 0 kl = k
+      then Some (Stdlib.String.sub t kl (Stdlib.String.length t - kl)) else go r in
+  go toks
+
+(* ---- C18: memory managers: monitor state per manager ---- *)
+type mmstate = { mutable live : Model.state; mutable nreq : int; style : string;
+                 mutable fl : fl_state; mutable sizes : (int * (int * int)) list }
+let mms : (string, mmstate) Hashtbl.t = Hashtbl.create 7
+
 (* ---- commands ---- *)
 
 let run toks =
@@ -266,6 +301,54 @@ let run toks =
         | Ok b -> emit (Printf.sprintf "term hreal v=%08x" (int_of_z b))
         | Err c -> raise (Err (str c)))
      | _ -> raise Unsupported)
+  | "mm" :: "new" :: m :: style :: _ ->
+    Hashtbl.replace mms m { live = []; nreq = 0; style = style; fl = fl_init; sizes = [] }
+  | "mm" :: "req" :: m :: n :: _ ->
+    let st = try Hashtbl.find mms m with Not_found -> raise Unsupported in
+    let id = st.nreq in
+    st.nreq <- id + 1;
+    let n = int_of_string n in
+    if st.style = "free" then begin
+      (* deterministic replica *)
+      match fl_request st.fl (z_of_int n) with
+      | None -> raise (Err "MISCELLANEOUS")
+      | Some (fl', h) ->
+        st.fl <- fl';
+        let h = int_of_z h in
+        st.sizes <- (id, (h, n)) :: st.sizes;
+        (match accept st.live (Req (nat_of_int id, z_of_int n, z_of_int h, z_of_int n)) with
+         | Some s' -> st.live <- s'
+         | None -> if h <> 0 then emit "mm req REPLICA-REJECTED-BY-MONITOR");
+        emit (Printf.sprintf "mm req id=%d addr=%d got=%d" id h n)
+    end else begin
+      (* acceptance: validate the implementation's response *)
+      match Hashtbl.find_opt impl_obs !line with
+      | None -> ()
+      | Some obs ->
+        (match field obs "addr", field obs "got" with
+         | Some a, Some g ->
+           let a = int_of_string a and g = int_of_string g in
+           st.sizes <- (id, (a, g)) :: st.sizes;
+           (match accept st.live (Req (nat_of_int id, z_of_int n, z_of_int a, z_of_int g)) with
+            | Some s' -> st.live <- s'; emit obs
+            | None -> emit (Printf.sprintf "mm req REJECTED-BY-MONITOR id=%d n=%d addr=%d got=%d (overlaps a live chunk, too small, or null)" id n a g))
+         | _ -> ())
+    end
+  | "mm" :: "rec" :: m :: id :: _ ->
+    let st = try Hashtbl.find mms m with Not_found -> raise Unsupported in
+    let id = int_of_string id in
+    (match accept st.live (Rec (nat_of_int id)) with
+     | Some s' -> st.live <- s'
+     | None -> ());
+    if st.style = "free" then begin
+      match List.assoc_opt id st.sizes with
+      | Some (h, n) -> st.fl <- fl_recycle st.fl (z_of_int h) (z_of_int n)
+      | None -> ()
+    end;
+    emit "mm rec ok"
+  | "mm" :: "check" :: m :: _ ->
+    let st = try Hashtbl.find mms m with Not_found -> raise Unsupported in
+    emit (Printf.sprintf "mm check live=%d corrupt=0" (List.length st.live))
   | "show" :: a :: _ -> show a
   | "eq" :: a :: b :: _ ->
     let (fa, ta) = get_edge a and (fb, tb) = get_edge b in
@@ -278,6 +361,7 @@ let run toks =
   | _ -> ()
 
 let () =
+  if Array.length Sys.argv > 2 then load_impl Sys.argv.(2);
   let ic = open_in Sys.argv.(1) in
   (try
      while true do
